@@ -382,11 +382,8 @@ def _real_howlong(interval, start, when):
 
 
 def howlong_point(interval: float, start: float, when: float) -> bool:
-    """
-    pre: interval > 0 and when >= start
-    post: _
-    """
-    # replay target for the lemma (and a concrete spot check): the REAL _scheduleFrom at one point
+    # replay target for the lemma's counterexamples: the REAL _scheduleFrom at one concrete point
+    # (requires interval > 0 and when >= start)
     hl = _real_howlong(interval, start, when)
     if not (0 < hl <= interval):
         return False
